@@ -70,7 +70,11 @@ func VxC24() {
 		if i == k-1 {
 			sep = "\n"
 		}
-		c := vxInst(vxStmts[sel].text, i) + sep
+		lead := ""
+		if vxParam("LEAD") == 1 && vxBool() {
+			lead = "// lead " + string(rune('0'+i)) + "\n" // a leading comment belongs to the chunk that follows it
+		}
+		c := lead + vxInst(vxStmts[sel].text, i) + sep
 		chunks = append(chunks, c)
 		cls = append(cls, vxStmts[sel].cls)
 		src += c
